@@ -896,7 +896,14 @@ def shard(ctx):
     # default of a built-in type; must not make the helper fail)
     odd = [[S.TAG_TS, '2001-12-14'], [S.TAG_TS, '2001-12-14 21:59:43'],
            ['tag:yaml.org,2002:binary', 'aGk='], ['!Custom', 'xyz'],
-           ['!Custom', '1'], ['tag:yaml.org,2002:value', '=']]
+           ['!Custom', '1'], ['tag:yaml.org,2002:value', '='],
+           # explicitly tagged scalars that are no value of their tag
+           # (savorizers see freshly parsed input: "that node may contain
+           # anything"): equal to no default, and no reason to fail
+           [S.TAG_INT, 'abc'], [S.TAG_INT, ''], [S.TAG_FLOAT, 'x'],
+           [S.TAG_FLOAT, '1.5.5'], [S.TAG_BOOL, 'maybe'], [S.TAG_BOOL, ''],
+           [S.TAG_TS, 'nonsense'], [S.TAG_NULL, 'x'], [S.TAG_INT, '0x'],
+           [S.TAG_INT, '1:99:x']]
     for k, ov in enumerate(odd):
         for di in range(len(DEFAULTS)):
             if ctx.mine(k * 100 + di):
